@@ -31,10 +31,7 @@ type largeEnc struct {
 }
 
 func largeEncodings(_ *vh.Rng, thorough bool) []largeEnc {
-	counts := []int{4097, 6000, 40000}
-	if thorough {
-		counts = append(counts, 70000)
-	}
+	counts := []int{4097, 6000, 40000, 70000}
 	var out []largeEnc
 	for _, n := range counts {
 		// TextPack records
@@ -74,7 +71,7 @@ func largeEncodings(_ *vh.Rng, thorough bool) []largeEnc {
 			rp.IpTable.Put(int32(i+1), int32(i))
 		}
 		out = append(out, largeEnc{enc{"pack", "pack.StatRemoteIpPack", pack.ToBytesPack(rp)}, n, 8, 20})
-		if n <= 40000 {
+		if n != 40000 { // (40000 and 70000 both clamp to the 16-bit limits: once)
 			// 16-bit counted tables: arrays (≤ 32767) and Stat*Pack record tables (≤ 65535)
 			k := n
 			if k > 32767 {
@@ -89,11 +86,15 @@ func largeEncodings(_ *vh.Rng, thorough bool) []largeEnc {
 			out = append(out, largeEnc{enc{"value", "value", encodeValue(value.NewIntArray(a))}, k, 4, 3})
 			out = append(out, largeEnc{enc{"value", "value", encodeValue(value.NewTextArray(ta))}, k, 2, 3})
 			er := gio.NewDataOutputX()
-			er.WriteShort(int16(n))
-			for i := 0; i < n; i++ {
+			rn := n
+			if rn > 65535 {
+				rn = 65535
+			}
+			er.WriteShort(int16(rn))
+			for i := 0; i < rn; i++ {
 				er.WriteInt(int32(i)).WriteInt(1).WriteLong(int64(i)).WriteDecimal(1).WriteDecimal(2)
 			}
-			out = append(out, largeEnc{enc{"errrecs", "pack.StatErrorPack.GetRecords", er.ToByteArray()}, n, 20, 2})
+			out = append(out, largeEnc{enc{"errrecs", "pack.StatErrorPack.GetRecords", er.ToByteArray()}, rn, 20, 2})
 		}
 	}
 	return out
@@ -138,11 +139,15 @@ func largeSweep(env *vh.Env, rep *vh.Report, rng *vh.Rng) {
 	var wg sync.WaitGroup
 	sem := make(chan struct{}, 12)
 	for _, le := range encs {
-		if ok, c := valid(le.kind, le.b); !ok || (streamable(le.kind) && c != len(le.b)) {
+		if ok, _ := valid(le.kind, le.b); !ok { // (an encoding that is not consumed to its end is swept too: its prefixes decode)
+			mu.Lock()
 			rep.Count("large:not-accepted:" + le.typ)
+			mu.Unlock()
 			continue
 		}
+		mu.Lock()
 		rep.Count(fmt.Sprintf("large:%s:%d", le.typ, le.count))
+		mu.Unlock()
 		// truncation points
 		set := map[int]struct{}{}
 		n := len(le.b)
